@@ -53,6 +53,11 @@ Further shapes
     _parse_nexus_stream; `self._read` (dispatched on the reader's class) is a function parameter
   * factory expressions are values: lambda label: <namespace> -> fac_const, dataset.new_taxon_namespace -> FacNew,
     dataset.new_tree_list -> Some TLNew, tree_list._tree_list_pseudofactory -> TLFixed, TreeList / lambda -> TLNew
+Symbol mapper (wave 6): class NexusTaxonSymbolMapper is compiled by py/dv/gen_routes_mapper.py (Gen/RoutesMapper.v); here its
+construction (ifc_new_mapper), <mapper>.add_translate_token (ifc_mapper_add_token) and <mapper>.lookup_taxon_symbol(symbol,
+create_taxon_if_not_found=b) (ifc_mapper_lookup; followed by `if taxon is None:`) are operations proved to BE the compiled methods
+(Proofs/C13MapperTie.v).  The default of a bool parameter of a compiled method (enable_lookup_by_taxon_number) is read off the AST:
+a caller that omits the argument gets the current default, so a change of the default changes the callers' compiled code.
 Interface operations (not translated): tokenizer methods (token record model), NewickReader._parse_tree_statement (abstract;
 property C02 compiles it), atomic operations on TaxonNamespace / Taxon / TreeList objects and label sets, comment
 processing, construction of the fresh reader state, which class get_reader / get_tree_yielder instantiate.
@@ -616,7 +621,8 @@ class Fn:
                 raise Unsupported("%s: comparison operator %s" % (self.name, type(op).__name__))
             if isinstance(right, ast.Constant) and right.value is None:
                 fn = {"ostr": "o_is_none", "ons": "on_is_none", "otl": "on_is_none", "omap": "om_is_none", "otree": "ot_is_none",
-                      "oint": "oz_is_none", "otlfac": "opt_is_none", "ounit": "opt_is_none", "odataset": "on_is_none"}.get(ltype)
+                      "oint": "oz_is_none", "otlfac": "opt_is_none", "ounit": "opt_is_none", "odataset": "on_is_none",
+                      "otaxon": "otx_is_none"}.get(ltype)
                 if fn is None:
                     raise Unsupported("%s: None test on %s" % (self.name, ltype))
                 t = "(%s %s)" % (fn, lt)
@@ -778,6 +784,9 @@ class Fn:
             if ety != "ostr":
                 raise Unsupported("%s: new_taxon(label=%s)" % (self.name, ety))
             return "ifc_ns_new_taxon s v_%s %s" % (call.func.value.id, e), "otaxon", [], None
+        ml = self.mapper_lookup_call(call)
+        if ml is not None:
+            return ml
         sm = self.self_call(call)
         if sm is not None:
             if sm in self.translated:
@@ -809,6 +818,20 @@ class Fn:
                 return op.rstrip(), ty, inout, None
             raise Unsupported("%s: call of self.%s" % (self.name, sm))
         return None
+
+    def is_mapper_lookup(self, n):
+        return isinstance(n, ast.Call) and isinstance(n.func, ast.Attribute) and n.func.attr == "lookup_taxon_symbol" \
+            and isinstance(n.func.value, ast.Name) and self.types.get(n.func.value.id) == "omap"
+
+    def mapper_lookup_call(self, call):
+        """<mapper>.lookup_taxon_symbol(symbol, create_taxon_if_not_found=b) -> ifc_mapper_lookup (the compiled method of
+        Gen/RoutesMapper.v on the mapper object and the namespace it manages; Proofs/C13GenMapper.v)"""
+        if not self.is_mapper_lookup(call):
+            return None
+        shape = [("0|symbol", "ostr"), ("1|create_taxon_if_not_found", "bool", "true")]
+        args = self.args_of(call, shape)
+        m = call.func.value.id
+        return "ifc_mapper_lookup s v_%s %s %s" % (m, args[0][0], args[1][0]), "otaxon", [m], None
 
     def newick_parse_call(self, call):
         """<NewickReader>._parse_tree_statement(nexus_tokenizer=<the local tokenizer>, tree_factory=F,
@@ -847,6 +870,8 @@ class Fn:
                 return True
         if isinstance(n.func, ast.Attribute) and n.func.attr == "new_taxon" and isinstance(n.func.value, ast.Name) \
                 and self.types.get(n.func.value.id) == "ons":
+            return True
+        if self.is_mapper_lookup(n):
             return True
         if isinstance(n.func, ast.Attribute) and n.func.attr == "_parse_tree_statement" and \
                 (self.is_self_attr(n.func.value, "newick_reader") or self.spec.get("own_parse")):
@@ -896,7 +921,8 @@ class Fn:
                             and self.types.get(n.func.value.id) == "nslist":
                         add(n.func.value.id)
                     if isinstance(n.func, ast.Attribute) and isinstance(n.func.value, ast.Name) and \
-                            (n.func.attr, self.types.get(n.func.value.id)) in (("add", "sset"), ("add_translate_token", "omap")):
+                            (n.func.attr, self.types.get(n.func.value.id)) in (("add", "sset"), ("add_translate_token", "omap"),
+                                                                              ("lookup_taxon_symbol", "omap")):
                         add(n.func.value.id)
                     if self.spec.get("adds_to") and self.is_self_attr(n.func, "add_tree"):
                         add(self.spec["adds_to"])
@@ -1757,6 +1783,11 @@ class Fn:
                 if not isinstance(d, ast.Constant):
                     raise Unsupported("%s: default argument" % self.name)
                 txt = {None: "None", True: "true", False: "false"}.get(d.value) if d.value in (None, True, False) else None
+                idx = next((i for i, it in enumerate(self.spec["params"]) if it[0] == a.arg), None)
+                if txt in ("true", "false") and idx is not None and self.spec["params"][idx][1] == "bool" and declared is not None:
+                    # the default of a bool parameter is read off the AST: callers that omit the argument get it
+                    self.spec["params"][idx] = (a.arg, "bool", txt)
+                    continue
                 if txt is None or (declared is not None and declared != txt) or (declared is None and txt != "None"):
                     raise Unsupported("%s: default of %s" % (self.name, a.arg))
         else:
@@ -1837,6 +1868,7 @@ Notation rd_ns_get_taxon := (rd_ns_get_taxon T lower).
 Notation ifc_ns_new_taxon := (ifc_ns_new_taxon T).
 Notation ifc_ns_require_taxon := (ifc_ns_require_taxon T lower).
 Notation ifc_mapper_add_token := (ifc_mapper_add_token T lower).
+Notation ifc_mapper_lookup := (ifc_mapper_lookup T lower).
 Notation rd_ns_count := (rd_ns_count T).
 Notation rd_ns_at := (rd_ns_at T).
 Notation rd_registry := (rd_registry T).
